@@ -2,20 +2,21 @@
 # Sensitivity self-test: for each seeded known-bad patch /verif/seeded/<ID>_<k>/patch.diff, apply it to a scratch
 # copy of /repo and check that run_rt.py <ID> finds a failing input and that --replay reproduces it.
 #   selftest_seeded.sh [TARGET_DIR] [ID_k ...]          (default: all seeds; results to stdout, one line each)
-#   env: SEEDED_DIR (default /verif/seeded; the second wave is /verif/seeded2), MUT (scratch copy), BUDGET, SEED
+#   env: SEEDED_DIR (default /verif/seeded; the second wave is /verif/seeded2), MUT (scratch copy), BUDGET, SEED,
+#        PROP (run this property instead of the seed's own, e.g. PROP=C16 for seeded2/C19_2)
 TD=${1:-/var/tmp/rt-target-I}; shift
 HERE=$(cd "$(dirname "$0")" && pwd)
 SD=${SEEDED_DIR:-/verif/seeded}
 SEEDS=${*:-$(cd $SD && ls -d */ | tr -d /)}
 MUT=${MUT:-/var/tmp/rtmut}
 for s in $SEEDS; do
-  id=${s%%_*}
+  id=${PROP:-${s%%_*}}
   rm -rf $MUT; rsync -a --exclude target --exclude .git /repo/ $MUT/
   # cargo's freshness check is mtime based ("a source newer than the last build"): a file RESTORED by rsync carries its old mtime, so a crate
   # that the previous mutant changed and this one does not would silently keep the previous mutant's artefact.  Make every crate root new.
   touch $MUT/frost-*/src/lib.rs
   if ! (cd $MUT && patch -s -p1 < $SD/$s/patch.diff) >/dev/null 2>&1; then echo "$s PATCH-DOES-NOT-APPLY"; continue; fi
-  out=$TD/seeded-$s.json; rm -f $out
+  out=$TD/seeded-$s${PROP:+-as-$PROP}.json; rm -f $out
   t0=$(date +%s)
   r=$(python3 $HERE/run_rt.py $id --repo $MUT --target-dir $TD --budget-s ${BUDGET:-20} --seed ${SEED:-1} --out $out --quiet 2>/dev/null | tail -1)
   rc=$?
